@@ -18,6 +18,15 @@ package main
 //	offerall <i>            every leaf j != i offered with the path of i      -> ok <number accepted>
 //	vidx <i> <k>            leaf[i] with the path of i but LeafIndex := k     -> true | false
 //	settree <m>             new tree; SetTree(m, copy of GetTree())           -> ok <root> <allpaths digest> | err
+//	zero                    mt = &util.MerkleTree{} (the zero value, nothing computed)   -> ok
+//	root                    GetRoot()                                         -> ok <root|-> | panic
+//	pathraw <idx>           GetPathByIndex(idx) for ANY int idx               -> ok <leafIndex> <nodes|-> | panic
+//	verifynil <tag>         VerifyPath(Hash(tag), nil)                        -> true | false | panic
+//	loadraw <m>             t2.SetTree(m, copy of GetTree()) for ANY int m, then t2.GetRoot(), t2.GetPathByIndex(0)
+//	                                                                          -> ok <root|-> <0:nodes|panic> | err
+//	(`leaves 0 <tag>` + `compute` is ComputeTree of the empty list.)  Panics are recovered per op.  A panic is an
+//	oracle failure only inside the property's domain (tree of >= 1 leaves, 0 <= idx < n, non-nil path); outside it
+//	is an observation compared with the checked Lean model (`Verif.Model.MerkleChecked`).
 //	export                  e_k := GetTree() (the slice itself, NOT copied), with the root, leaves and paths of
 //	                        the tree at this moment recorded                  -> ok <k>
 //	recompute <n> <tag>     ComputeTree of n fresh leaves on the SAME MerkleTree object  -> as compute
@@ -113,6 +122,13 @@ func c19Fold(h string, nodes []string, idx int, root string) bool {
 	return h == root
 }
 
+func c19Dash(s string) string {
+	if s == "" {
+		return "-"
+	}
+	return s
+}
+
 func c19Nodes(p []string) string {
 	if len(p) == 0 {
 		return "-"
@@ -172,6 +188,7 @@ func runC19(ops []string) CaseResult {
 	root := ""
 	var exports []*c19Export
 	firstN := 0
+	leavesSet := false
 	fail := func(i int, f string, a ...interface{}) {
 		if len(res.Fails) < 20 {
 			res.Fails = append(res.Fails, fmt.Sprintf("op %d (%s): ", i, ops[i])+fmt.Sprintf(f, a...))
@@ -206,6 +223,12 @@ func runC19(ops []string) CaseResult {
 			hs[k] = c19Hashable(l)
 		}
 		target.ComputeTree(hs)
+		if len(ls) == 0 {
+			// outside the property (no leaves): observed only, compared with the model
+			tags["obs:empty-list"] = true
+			t := target.GetTree()
+			return fmt.Sprintf("ok %d %s %s", len(t), c19Dash(target.GetRoot()), c19Digest(strings.Join(t, ","))), nil, ""
+		}
 		lvs := c19Levels(ls)
 		rt := lvs[len(lvs)-1][0]
 		var flat []string
@@ -227,7 +250,7 @@ func runC19(ops []string) CaseResult {
 				tags["odd-inner-level"] = true
 			}
 		}
-		return fmt.Sprintf("ok %d %s %s", len(t), target.GetRoot(), c19Digest(strings.Join(t, ","))), lvs, rt
+		return fmt.Sprintf("ok %d %s %s", len(t), c19Dash(target.GetRoot()), c19Digest(strings.Join(t, ","))), lvs, rt
 	}
 	for i, op := range ops {
 		f := strings.Fields(op)
@@ -235,19 +258,28 @@ func runC19(ops []string) CaseResult {
 		bad := false
 		switch f[0] {
 		case "leaves":
-			bad = len(f) != 3 || atoi(f[1]) < 1 || mt != nil
+			bad = len(f) != 3 || atoi(f[1]) < 0 || mt != nil
 		case "dup":
 			bad = mt != nil || len(f) != 3 || atoi(f[1]) < 0 || atoi(f[1]) >= len(leaves) || atoi(f[2]) < 0 || atoi(f[2]) >= len(leaves)
 		case "compute":
-			bad = len(leaves) == 0 || mt != nil
+			bad = !leavesSet || mt != nil
+		case "zero":
+			bad = mt != nil || leavesSet
+		case "root":
+			bad = mt == nil
+		case "pathraw", "loadraw":
+			_, e := strconv.Atoi(f[len(f)-1])
+			bad = mt == nil || len(f) != 2 || e != nil
+		case "verifynil":
+			bad = mt == nil || len(f) != 2
 		case "export":
 			bad = mt == nil
 		case "recompute":
-			bad = mt == nil || len(f) != 3 || atoi(f[1]) < 1
+			bad = mt == nil || len(f) != 3 || atoi(f[1]) < 0
 		case "checkexport":
 			bad = mt == nil || len(f) != 2 || atoi(f[1]) < 0 || atoi(f[1]) >= len(exports)
 		case "loadcompute":
-			bad = mt == nil || len(f) != 4 || atoi(f[1]) < 0 || atoi(f[1]) >= len(exports) || atoi(f[2]) < 1
+			bad = mt == nil || len(f) != 4 || atoi(f[1]) < 0 || atoi(f[1]) >= len(exports) || atoi(f[2]) < 0
 		default:
 			bad = mt == nil
 			for k := 1; k < len(f) && k < 3 && !bad; k++ {
@@ -269,7 +301,53 @@ func runC19(ops []string) CaseResult {
 				for k := range leaves {
 					leaves[k] = c19Leaf(f[2], k)
 				}
+				leavesSet = true
 				return "ok"
+			case "zero":
+				mt = &util.MerkleTree{}
+				tags["zero-value-tree"] = true
+				return "ok"
+			case "root":
+				r := mt.GetRoot()
+				if len(leaves) >= 1 && r != root {
+					fail(i, "root %s, want %s", r, root)
+				}
+				return "ok " + c19Dash(r)
+			case "pathraw":
+				idx := atoi(f[1])
+				out := guard(func() string {
+					p := mt.GetPathByIndex(idx)
+					return fmt.Sprintf("ok %d %s", p.LeafIndex, c19Nodes(p.Nodes))
+				})
+				switch {
+				case idx >= 0 && idx < len(leaves):
+					if out != "panic" {
+						checkPath(i, mt.GetPathByIndex(idx), idx)
+					}
+				case out == "panic" && idx < 0:
+					tags["obs:pathraw-negative-panics"] = true
+				case out == "panic":
+					tags["obs:pathraw-beyond-leaves-panics"] = true
+				default:
+					tags["obs:pathraw-beyond-leaves-returns-a-path"] = true
+				}
+				return out
+			case "verifynil":
+				tags["obs:nil-path"] = true
+				return strconv.FormatBool(mt.VerifyPath(c19Hashable(c19Hash(f[1])), nil))
+			case "loadraw":
+				m := atoi(f[1])
+				t2 := &util.MerkleTree{}
+				if err := t2.SetTree(m, append([]string(nil), mt.GetTree()...)); err != nil {
+					return "err"
+				}
+				if m < 0 {
+					tags["obs:settree-negative-count-accepted"] = true
+				}
+				return "ok " + c19Dash(t2.GetRoot()) + " " + guard(func() string {
+					p := t2.GetPathByIndex(0)
+					return fmt.Sprintf("%d:%s", p.LeafIndex, c19Nodes(p.Nodes))
+				})
 			case "dup":
 				leaves[atoi(f[1])] = leaves[atoi(f[2])]
 				tags["dup"] = true
@@ -465,7 +543,14 @@ func runC19(ops []string) CaseResult {
 			return "bad-op"
 		})
 		if out == "panic" {
-			fail(i, "panic")
+			// inside the property's domain a panic is a failure; outside it is an observation
+			outside := len(leaves) == 0 || f[0] == "verifynil" ||
+				(f[0] == "pathraw" && (atoi(f[1]) < 0 || atoi(f[1]) >= len(leaves)))
+			if outside {
+				tags["obs:panic:"+f[0]] = true
+			} else {
+				fail(i, "panic")
+			}
 		}
 		res.Outs = append(res.Outs, out)
 	}
@@ -557,6 +642,14 @@ func c19Case(r *rand.Rand, n int, tag string, dups int, tier string) []string {
 			ops = append(ops, fmt.Sprintf("settree %d", m))
 		}
 	}
+	// outside the property's quantifier (observations, compared with the checked model): any int index, nil path,
+	// any int leaf count for SetTree
+	size := c19Size(n)
+	ops = append(ops, "root")
+	for _, idx := range []int{-1, -2, n, n + 1, size - 1, size, size + 1, n + r.Intn(size-n+1), 1 << 40, -(1 << 40), r.Intn(n)} {
+		ops = append(ops, fmt.Sprintf("pathraw %d", idx))
+	}
+	ops = append(ops, "verifynil "+tag, "loadraw -1", fmt.Sprintf("loadraw %d", n), fmt.Sprintf("loadraw %d", n+1))
 	// exports are values: later ComputeTree calls on the same object (equal, smaller, larger leaf counts) and on an
 	// object the export was loaded into must leave an earlier export loading to its original root and paths
 	sizes := func() int {
@@ -573,10 +666,37 @@ func c19Case(r *rand.Rand, n int, tag string, dups int, tier string) []string {
 	}
 	ops = append(ops, "export", fmt.Sprintf("recompute %d %sb", n2, tag), "checkexport 0", "allpaths",
 		fmt.Sprintf("pathidx %d", n2-1), "export",
-		fmt.Sprintf("loadcompute 0 %d %sc", sizes(), tag), "checkexport 0", "checkexport 1",
-		fmt.Sprintf("loadcompute 1 %d %sd", n2, tag), "checkexport 1",
-		fmt.Sprintf("recompute %d %se", sizes(), tag), "checkexport 1", "checkexport 0", "allpaths")
+		fmt.Sprintf("loadcompute 0 %d %sc", sizes(), tag), "checkexport 0")
+	if n <= 300 {
+		// (large trees: one round is enough; every checkexport re-verifies all paths)
+		ops = append(ops, "checkexport 1",
+			fmt.Sprintf("loadcompute 1 %d %sd", n2, tag), "checkexport 1",
+			fmt.Sprintf("recompute %d %se", sizes(), tag), "checkexport 1", "checkexport 0", "allpaths")
+	}
 	return ops
+}
+
+// c19Size: array size for n leaves (used only to pick indices around the end of the array)
+func c19Size(n int) int {
+	if n == 1 {
+		return 2
+	}
+	s := 1
+	for ll := n; ll > 1; ll = (ll + 1) / 2 {
+		s += ll
+	}
+	return s
+}
+
+// c19Degenerate: the empty list and the zero-value tree (outside the property; observations)
+func c19Degenerate() [][]string {
+	return [][]string{
+		{"leaves 0 e", "compute", "tree", "root", "pathraw 0", "pathraw 1", "pathraw -1", "pathmissing ex", "allpaths", "verifyall",
+			"verifynil ex", "loadraw 0", "loadraw -5", "loadraw 1", "settree 0", "export", "recompute 3 eb", "checkexport 0", "allpaths",
+			"recompute 0 ec", "root", "pathraw 0", "loadcompute 0 0 ed", "loadcompute 0 2 ee"},
+		{"zero", "root", "pathraw 0", "pathraw -1", "pathraw 7", "pathmissing zx", "verifynil zx", "loadraw 0", "allpaths", "verifyall",
+			"recompute 2 zb", "root", "pathraw 0", "pathraw 1", "pathraw 2", "pathraw 3", "pathraw 4"},
+	}
 }
 
 func genC19(r *rand.Rand, tier string, idx int) []string {
@@ -623,6 +743,9 @@ func exhC19(tier string, emit func([]string)) {
 	}
 	// every n exactly once, in a scattered order (7919 is coprime to both bounds) so that the contiguous chunks the
 	// model run is split into carry similar work
+	for _, c := range c19Degenerate() {
+		emit(c)
+	}
 	// (the smallest trees first, so that the first failure reported is a small one)
 	for n := 1; n <= 40; n++ {
 		emit(c19Case(rand.New(rand.NewSource(int64(n))), n, "e", 0, tier))
